@@ -304,9 +304,10 @@ class Recorder:
                 raise HarnessError(f'flaky in {label}: {exc}') from exc
 
     def export(self):
+        from lib import cover
         return {'evals': self.evals, 'nt': self.nt, 'nt_enum': self.nt_enum, 'classes': self.classes,
                 'samples': self.samples, 'nt_samples': self.nt_samples, 'violations': self.violations,
-                'excluded': self.excluded}
+                'excluded': self.excluded, 'cover': set(cover.HITS) if cover.ENABLED[0] else None}
 
     def absorb(self, d):
         self.evals += d['evals']
@@ -322,6 +323,9 @@ class Recorder:
                 self.nt_samples.append(s)
         for c, fs in d['violations']:
             self.note_violation(c, fs)
+        if d.get('cover'):
+            from lib import cover
+            cover.HITS |= d['cover']
 
 
 _WORKER = {}
